@@ -47,7 +47,7 @@ class SpliceLoop(LoopSpec):
         W, lit = cx.W, cx.W.lit
         e = cx.clock + 1
         r = cp(e, cx.node('ss_tag_orig'))
-        from .roles import found_nodes, enum_start
+        from .roles import found_nodes, enum_start, counter_invariant
         sb = found_nodes(lp.entry)[-1]
         idx = enum_start(lp)
         x, q = z3.Consts('x!sp q!sp', Node)
@@ -59,10 +59,12 @@ class SpliceLoop(LoopSpec):
                     z3.ForAll([x], Imp(Hm.mem(r, x), A(H.mem(r, x), H.pos(r, x) == Hm.pos(r, x) + z3.If(Hm.pos(r, x) >= idx, k, 0))),
                               patterns=[Hm.mem(r, x), H.mem(r, x), H.pos(r, x)])))
         out.append(('body_children_in_place',
-                    z3.ForAll([x], Imp(inblk(x), A(H.mem(r, x), H.pos(r, x) == idx + Hm.pos(sb, x))), patterns=[Hm.mem(sb, x)])))
+                    z3.ForAll([x], Imp(inblk(x), A(H.mem(r, x), H.pos(r, x) == idx + Hm.pos(sb, x))),
+                              patterns=[Hm.mem(sb, x), H.mem(r, x), H.pos(r, x)])))
         out.append(('only_old_children_and_body_children',
                     z3.ForAll([x], Imp(H.mem(r, x), z3.Or(Hm.mem(r, x), inblk(x))), patterns=[H.mem(r, x)])))
         out.append(('length', H.len(r) == Hm.len(r) + k))
+        out += counter_invariant(lp, idx, k)
         out.append(('frame.lists', A(
             z3.ForAll([q, x], Imp(q != r, A(H.mem(q, x) == Hm.mem(q, x), H.pos(q, x) == Hm.pos(q, x))), patterns=[H.mem(q, x), H.pos(q, x)]),
             z3.ForAll([q], Imp(q != r, H.len(q) == Hm.len(q)), patterns=[H.len(q)]),
